@@ -25,7 +25,10 @@ import (
 	"verif/harness/internal/stack"
 )
 
-func TestMain(m *testing.M) { rt.Main(m, "C20") }
+func TestMain(m *testing.M) {
+	startMITM() // see azure_test.go: must happen before anything dials or verifies a certificate
+	rt.Main(m, "C20")
+}
 
 var E = ev.Get("C20")
 
